@@ -137,6 +137,10 @@ def gen_config(rng, tier):
     if sampler == "gate":
         cfg["dir"] = rng.choice(["forward", "backward"])
         cfg["steps"] = 200
+    if sampler in ("gate", "onsite", "global", "brickwall"):
+        # fault / configuration injected before the draws: the object is copied, or a compile()
+        # is attempted first (documented to raise for random gates: a rejected operation)
+        cfg["prep"] = rng.choice(["none", "none", "copy", "failed_compile", "other_direction_first"])
     return cfg
 
 
@@ -167,6 +171,23 @@ class RunClass(Run):
             self.aux = (pc.CliffordGate(*range(n)), cfg["dir"])
         elif s == "coin":
             self.aux = sut.mk_list([(tuple(3 if i == q else 0 for i in range(n)), 0) for q in range(n)])
+        prep = cfg.get("prep", "none")
+        if prep != "none" and self.aux is not None:
+            obj = self.aux[0]
+            if prep == "copy":
+                obj = obj.copy()
+            elif prep == "failed_compile":
+                try:
+                    obj.compile()
+                    self.probes["compile_of_random_object_did_not_raise"] += 1
+                except Exception:
+                    self.stats["rejected_op"] += 1
+            elif prep == "other_direction_first":
+                seams.seed_all(12345)
+                other = "backward" if self.aux[1] == "forward" else "forward"
+                getattr(obj, other)(pc.zero_state(n) if s != "gate" else sut.mk_list(rm.identity_images(n)))
+            self.aux = (obj,) + tuple(self.aux[1:])
+            self.stats["config:prep_" + prep] += 1
 
     def propose(self, rng):
         op = {"op": "draw", "entropy": new_entropy(rng)}
